@@ -16,7 +16,7 @@ func init() { register("C08", "other", checkC08) }
 
 func checkC08(w *World, r *Result) {
 	r.Explanation = "Decides structural necessary conditions: EXH-c the Go->SQL mappings (newType over node kinds, typeConstraint over SQL types, basicTypeName/nameFromKind over basic kinds) handle every implementation/kind or refuse it with an explicit message; AGR-C08c NewTable appends one column per field in field order and skips exactly 'neither guard nor exported'; AGR-C08k isComposite accepts exactly integer basics and integer enums; AGR-C08f the self-reference exclusion of foreign keys applies to ID-typed detection only, a tagged field is a foreign key whenever the tag is present, and ForeignKeys/columns loops have no other filter; AGR-C08b each constraint family is produced by an unfiltered loop over the whole collection of the iterated table (foreign keys, guards by their own predicate, custom constraints), one CREATE TABLE per selected table; FLW-C08a the ON DELETE action, the guard value and the iterated table's name flow into the text of their constraint; AGR-C05d every table position in the DDL is filled by SQLTableName and column positions by the Go field name; AGR-C08p the primary column is decided by Table.Primary in both the DDL and the CRUD generator; DECL-ID the ID of every SQL declaration mentions every variable its content depends on. Does not decide: the Go->SQL type table itself (which kinds map to smallint), nullability choices and CHECK contents as values."
-	r.Rules = []string{"EXH-c", "AGR-C08c", "AGR-C08k", "AGR-C08f", "AGR-C08t", "AGR-C08b", "FLW-C08a", "AGR-C05d", "AGR-C08p", "AGR-C08i", "AGR-C08n", "AGR-C08l", "AGR-C04e", "AGR-C04b", "DECL-ID", "CONST-EXACT", "UTF8-SLICE", "ALIAS-APPEND", "PRINTF", "MUT-AN"}
+	r.Rules = []string{"EXH-c", "AGR-C08c", "AGR-C08k", "AGR-C08f", "AGR-C08t", "AGR-C08b", "FLW-C08a", "AGR-C05d", "AGR-C08p", "AGR-C08i", "AGR-C08n", "AGR-C08l", "AGR-C04e", "AGR-C04b", "DECL-ID", "CONST-EXACT", "UTF8-SLICE", "ALIAS-APPEND", "PRINTF", "MUT-AN", "BASIC-ID", "SEP-INDEX", "CUTSET"}
 	mutAnRule(w, r, func(rel string) bool { return rel == "generator/sql" })
 	basicIDRule(w, r, func(rel string) bool { return rel == "analysis/sql" || rel == "generator/sql" || rel == "analysis" })
 	printfRule(w, r, "generator/sql")
